@@ -46,14 +46,14 @@ CHECK_DEADLOCK FALSE
 
 def generate(tier: str, templates=None) -> fx.TlcResult:
     pool = POOL_QUICK if tier == 'quick' else POOL_THOROUGH
-    tpls = templates or [1, 2, 3, 4, 5, 6, 7, 8, 9]
+    tpls = templates or [1, 2, 3, 4, 5, 6, 7, 8, 9, 10, 11]
     groups = [g for g in ([t for t in tpls if t in (1, 2, 5)], [t for t in tpls if t in (3, 4, 7)],
-                          [t for t in tpls if t == 6], [t for t in tpls if t in (8, 9)]) if g]
+                          [t for t in tpls if t == 6], [t for t in tpls if t in (8, 9)], [t for t in tpls if t in (10, 11)]) if g]
 
     def cfg(i: int) -> str:
         return CFG.format(names=tla_set(NAMES), solo=tla_set(SOLO), pool=tla_set(pool), tpl=', '.join(map(str, groups[i])))
 
-    res = fx.run_tlc_sharded('MC_Terms', cfg, len(groups), workers=4, parallel=4)
+    res = fx.run_tlc_sharded('MC_Terms', cfg, len(groups), workers=3, parallel=5)
     if res.violated:
         raise fx.MachineryError(f'MC_Terms violates {res.violated}:\n' + res.stdout[-3000:])
     return res
@@ -390,7 +390,7 @@ def judge(prop: str, cases: list[dict], results: list[dict], verd: fx.Verdicts) 
 
 def select(prop: str, cases: list[dict]) -> list[dict]:
     if prop == 'C10':
-        return [c for c in cases if c.get('refused') or c['term']['k'] in ('brow', 'bdiag', 'bcol')
+        return [c for c in cases if c.get('refused') or c['term']['k'] in ('brow', 'bdiag', 'bcol')  # incl. arity 6 and 7
                 or any(ch['k'] in ('brow', 'bdiag', 'bcol') for ch in c['term']['ch'])]
     sel = [c for c in cases if not c.get('refused')]
     if prop == 'C03':
